@@ -121,7 +121,7 @@ def observe_params(algo):
 
 def pclass(path):
     """class of a state path: first three components, numbers replaced by N"""
-    parts = [p for p in path.split(".") if p]
+    parts = [p for p in re.sub(r"\[\d+\]", "", path).split(".") if p]
     return re.sub(r"\d+", "N", ".".join(parts[:3]))
 
 
@@ -519,6 +519,10 @@ def cli_program(cfg, seed):
             el["checkpoint_frequency"] = cfg["freq"]
             if el["type"] == "MCMC":
                 el["every"] = 0
+            if cfg["graph"] == "cli-map":
+                # --lr 0.05: with the default step (1.0) L-BFGS leaves the support of the
+                # priors in the second iteration on this data set
+                el["options"] = dict(el["options"], lr=0.05)
         out.append(el)
     if not any(el.get("type") in RUNNABLE for el in out):
         raise RuntimeError("no algorithm in " + cfg["graph"])
@@ -559,11 +563,14 @@ def histories(n_saves, tier, cfg):
 
 def sig_of(cfg, check, what):
     s = {"part": cfg["part"], "check": check, "what": what}
-    for key in ("algo", "sched", "graph"):
+    for key in ("algo", "sched", "graph", "dtype"):
         if key in cfg:
             s[key] = cfg[key]
     if "ops" in cfg:
         s["ops"] = "+".join(cfg["ops"])
+        hmc = [o for o in cfg["ops"] if o.startswith("hmc")]
+        if hmc:
+            s["hmc"] = hmc[0]
     return s
 
 
